@@ -27,6 +27,9 @@ claimed = {
  "C08": dict(sec="7 C08",
    text="Proof for the memory store that with a cap the mailbox never holds more than cap messages after a delivery, that exactly the oldest entries are evicted (every survivor is newer than every evicted message), that without a cap nothing is evicted, and that every cap-evicted message is reported to the size enforcer and to listeners (capEvicted); proof for the file store that the index written by AddMessage never lists more than cap entries.  The size enforcer's own loop (container/list, goroutine rendez-vous) is not under contract.",
    note="assumed: file newMessage cap loop (assumed contract), channel rendez-vous with the enforcer goroutine (D2/D3); the enforcer's accounting loop is NOT verified — only that every removal path now reports to it"),
+ "C09": dict(sec="7 C09, 10", category="other",
+   text="REDUCED LEVEL (lock discipline and absence of crashes, decided deductively; linearisability, deadlock freedom in general and 'no lost mail under interleavings' are NOT decided).  For every store operation and every path through it: (memory store) the mailbox table is read and written only under the store mutex, a mailbox's message map and counters are read only under its RWMutex and written / updated only under it in write mode, unless the object was allocated by the operation itself; (file store) every function that touches a mailbox's files is entered with that mailbox's lock in the required mode (checked at each call site) and every file-system mutation happens under a write lock; (both) no lock is acquired and no channel rendez-vous is started while another lock is held, except for the event broker's leaf lock; every Unlock matches a held lock in the same mode; every return path leaves with the locks it was entered with.  Together with the safety obligations (no nil dereference, index, type assertion or closed-channel panic on any path) of the same functions.",
+   note="assumed: a lock is identified by its address; HashLock.Get gives the same lock for the same mailbox (trusted); AsyncEventBroker.Emit's lock is a leaf lock (trusted: it starts goroutines and returns); generateID's receive from the counter channel while the mailbox lock is held is not flagged (receives are not); the seen flag of a memory-store message is read by Seen() without a lock (not expressible: the lock lives in the mailbox, the message has no back pointer) — a benign data race that this check does not cover; schedules, fairness, linearisability: not decided"),
  "C10": dict(sec="7 C10",
    text="Proof that the file store keeps no state between operations: every store method builds its mailbox handle from scratch (mbox(): not loaded, empty list, index path a deterministic function of the mail path and the mailbox name) and every result and effect is stated over the index file's content (ghost index) before and after the operation, so a fresh Store on the same path is indistinguishable; with C07's file obligations: order, ids and seen flags are those of the index file.",
    note="assumed: gob round trip (readIndex assumed), id uniqueness across a restart within one second (generateID), message bodies (.raw files) are not modelled beyond existence"),
@@ -55,7 +58,6 @@ claimed = {
 
 pending = {
  "C02": "data-path contracts (stores, POP3, HTTP handlers) not built yet; see DESIGN.md section 7",
- "C09": "monitor-invariant obligations not built yet; see DESIGN.md section 7",
  "C18": "decided by third-party HTML/CSS parsers (bluemonday, x/net/html, gorilla/css): no contract on inbucket's glue can express 'no active content' without assuming the property (DESIGN.md section 7, C18)",
  "C19": "liveness / schedule property (graceful drain, stop accepting, 'after and only after'): outside what function contracts can decide (DESIGN.md section 7, C19)",
 }
@@ -84,7 +86,7 @@ def main():
             "evidence_file": f"evidence/{pid}.json",
             "replay_cmd_template": f"./check {pid} --replay {{path}}",
             "engine": "govc",
-            "level_claimed": {"category": "proof", "text": c["text"], "design_ref": "DESIGN.md section " + c["sec"]},
+            "level_claimed": {"category": c.get("category", "proof"), "text": c["text"], "design_ref": "DESIGN.md section " + c["sec"]},
             "level_note": c["note"],
             "technique": TECH,
         })
